@@ -170,6 +170,56 @@ pub fn run(thorough: bool, seed: u64, _replay: Option<String>) -> Report {
             rep.fail("oracle", "C12:serial-call-after-herd-differs", &format!("round {}", round), &pool[k].bytes, Some(&pool[k].sett), "herd");
         }
     }
+    // heavy herds: many bytes in flight at once – every single request well below the library's size limits, their sum
+    // well above them (8 × ~300 kB, 48 × ~24 kB of legacy single-byte text, every thread its own content) – compared
+    // with the same requests answered one at a time
+    {
+        let shapes: &[(usize, usize)] = if thorough { &[(8, 300_000), (48, 24_000), (16, 140_000), (4, 600_000), (64, 17_000), (8, 300_000)] } else { &[(8, 300_000), (48, 24_000)] };
+        for (hr, (n, size)) in shapes.iter().enumerate() {
+            let sources = [("french", "windows-1252"), ("russian", "windows-1251"), ("greek", "iso-8859-7"), ("polish", "iso-8859-2"), ("german", "iso-8859-1"), ("turkish", "windows-1254")];
+            let mut cases: Vec<Case> = vec![];
+            for i in 0..*n {
+                let (name, enc) = sources[(i + hr) % sources.len()];
+                let base = TEXTS.iter().find(|(x, _)| *x == name).map(|x| x.1).unwrap_or(TEXTS[1].1);
+                let unit = enc_bytes_lossy(&stretch(&mut rng, base, 1500 + 37 * i), enc);
+                if unit.is_empty() {
+                    continue;
+                }
+                let bytes: Vec<u8> = unit.iter().cycle().take(size + 13 * i).cloned().collect();
+                cases.push(Case { bytes, sett: Sett::default(), tag: format!("heavy-herd:{}x{}", n, size) });
+            }
+            let serial: Vec<Outcome> = cases.iter().map(|c| real_detect(&c.bytes, &c.sett)).collect();
+            let cases = Arc::new(cases);
+            let barrier = Arc::new(Barrier::new(cases.len()));
+            let handles: Vec<_> = (0..cases.len())
+                .map(|k| {
+                    let cases = cases.clone();
+                    let barrier = barrier.clone();
+                    std::thread::spawn(move || {
+                        barrier.wait();
+                        let a = real_detect(&cases[k].bytes, &cases[k].sett);
+                        let b = real_detect(&cases[k].bytes, &cases[k].sett);
+                        (k, a, b)
+                    })
+                })
+                .collect();
+            for h in handles {
+                rep.evaluations += 1;
+                rep.oracle_checked += 1;
+                match h.join() {
+                    Err(_) => rep.fail("oracle", "C12:thread-panicked", &format!("heavy herd {}", hr), &[], None, "heavy-herd"),
+                    Ok((k, a, b)) => {
+                        for got in [a, b] {
+                            if got != serial[k] {
+                                rep.fail("oracle", "C12:concurrent-answer-differs-from-serial", &format!("heavy herd {} ({} threads × ~{} bytes), thread {}: {} || serial {}", hr, n, size, k, got.show().chars().take(300).collect::<String>(), serial[k].show().chars().take(300).collect::<String>()), &cases[k].bytes, Some(&cases[k].sett), &cases[k].tag);
+                            }
+                        }
+                    }
+                }
+            }
+            rep.count("herd:mode-heavy");
+        }
+    }
     // first sight: everything above was answered serially once before the threads met it, so work a process does only
     // the first time it sees something (resolving a declared label, filling a table on demand) was done without
     // competition. Here every round brings a document nobody has seen – a new spelling of a declared label (case
